@@ -458,21 +458,35 @@ pub fn end_of_text<'text, Sc>(
 {
     let error_span = lexer.parse_span();
 
-    if lexer.is_empty() {
-        event!(Level::TRACE, "end_of_text: Success");
-        Ok(Success {
-            lexer,
-            value: (),
-        })
-    } else {
-        let lex = lexer.peek().unwrap();
+    match lexer.peek() {
+        Some(lex) => {
+            event!(Level::ERROR, "end_of_text: UnexpectedTokenError {}", lexer);
+            Err(Box::new(UnexpectedTokenError {
+                error_span,
+                token_span: lexer.token_span(),
+                expected: Expected::EndOfText,
+                found: Found::Token(lex),
+            }))
+        },
 
-        event!(Level::ERROR, "end_of_text: UnexpectedTokenError {}", lexer);
-        Err(Box::new(UnexpectedTokenError {
-            error_span,
-            token_span: lexer.token_span(),
-            expected: Expected::EndOfText,
-            found: Found::Token(lex),
-        }))
+        // No further tokens: either only filtered tokens remain before the
+        // end of the text, or the scanner stopped at an unrecognized token.
+        None => {
+            let mut end_lexer = lexer.clone();
+            let _ = end_lexer.next();
+            if end_lexer.is_empty() {
+                event!(Level::TRACE, "end_of_text: Success");
+                Ok(Success {
+                    lexer,
+                    value: (),
+                })
+            } else {
+                event!(Level::ERROR, "end_of_text: UnrecognizedTokenError {}",
+                    lexer);
+                Err(Box::new(UnrecognizedTokenError {
+                    error_span,
+                }))
+            }
+        },
     }
 }
